@@ -377,6 +377,16 @@ func ruleFILEENDAGREE(p *Program, rep *Report) {
 				for _, b2 := range fn.Blocks {
 					for j, in2 := range b2.Instrs {
 						cand := isRaise(in2)
+						if cand {
+							// the value stored must be the data end marker as it is AFTER the advance: the load
+							// feeding the store has to be dominated by the advance (a copy taken before is stale)
+							if ld, isLd := stripConv(in2.(*ssa.Store).Val).(*ssa.UnOp); isLd {
+								lb := ld.Block()
+								if !((lb == b && instrIndex(lb, ld) > i) || (lb != b && b.Dominates(lb))) {
+									cand = false
+								}
+							}
+						}
 						if c2, ok := in2.(ssa.CallInstruction); ok && !cand {
 							if sc := c2.Common().StaticCallee(); sc != nil && raises[sc] {
 								cand = true
